@@ -33,6 +33,21 @@ CLAIMED = {
     'C18': ('4 C18', 'TLC model checking of argument binding, the wrapper heap (Wrap/Call/CallCached session machine with a pointer-heap mechanism model refining the law) and the memo machine (MC_Decorators) + every TLC-printed binding case, wrap history and memo call sequence replayed on real decorators with == (S2C) + random binding observations, mixed wrap/call histories and memo sequences folded by the TLA+ trace specification Trace_Decorators (C2S)',
             "Python's binding rules, the normal form of wrapper chains, 'existing objects never change' (action property OnlyNewObject), fallback-iff-raises, exactly-undeclared keywords dropped and once-per-key evaluation are stated in TLA+; older objects are called again after newer ones were built, in every history TLC explores (<= 4-5 wraps of 7 kinds).",
             'Trusted: TLC, exec-generated base functions returning their bindings, the projection of wrapper chains in props/c18.py. Two recorded known findings (memo carried as a wrapper parameter; list = tuple cache keys). try_nan/true/false/list, keyword-only parameters excluded.'),
+    'C09': ('4 C09', 'TLC model checking of the business-day closed form against unit steps and counting, fixed units, month arithmetic and tenor folding (MC_Bump, 22 invariants) + every TLC-printed (day, n, unit/int/timedelta, intraday) case and 179 compound tenors replayed through dt_bump in several spellings (S2C) + the real dt_bump on every midnight of the scanned years (thorough: the whole 400-year cycle) x n in -60..60 x 9 unit letters, grouped by the abstraction the specification factors through and validated group by group with a concrete witness by the TLA+ trace specification Trace_Bump (C2S)',
+            "What dt_bump denotes is defined on instants <<ordinal, second, microsecond>> over the model-checked civil calendar; the code's closed formula is a mechanism checked against unit stepping in TLC; all laws of the statement are invariants; every real call is judged against the law.",
+            'Trusted: TLC, the grouping function of bulk observations (stated in evidence; MC proves the specification factors through it), rendering of tenors. Month units at midnight only; dt(bump) relative to today excluded.'),
+    'C10': ('4 C10', 'TLC model checking of the drange state machine (Single/RejectBump/Step/Finish, one Step per element; 14 invariants and termination as liveness under weak fairness, no state constraint) (MC_Drange) + every TLC-printed case replayed through drange and Calendar.drange under a CPU-time watchdog (S2C) + random long-span calls validated by the TLA+ trace specification Trace_Drange (C2S)',
+            "drange is specified as a machine that iterates the bump of Bump.tla; strictly monotone, starts at t0, within bounds, int = timedelta = 'nd', 'kb' = every k-th weekday, away => ValueError, t0 = t1 => [t0] are invariants; real calls must produce an outcome the machine accepts and must terminate.",
+            'Trusted: TLC, the CPU-time watchdog (40 s, correct calls take milliseconds) and a 3 GB address-space cap as the termination oracle. Zero bumps and month bumps with a time of day excluded.'),
+    'C12': ('4 C12', 'TLC model checking of the fill laws over every NaN mask of small vectors/frames x method lists x limits (MC_Fill, 15 invariants incl. mechanism = law) + every TLC-printed case replayed on ndarray 1-d/2-d, Series and DataFrame with == (S2C) + random frames and multi-outcome cases validated by the TLA+ trace specification Trace_Fill, which also enforces array result = pandas values and argument unchanged (C2S)',
+            'Per method the set of admitted results is defined in TLA+ on position-coded cells, so provenance of every filled value is visible; composition of method lists, limits, nona/fnna/ffill_na/ffill_0 are judged on every carrier.',
+            'Trusted: TLC, encoding of frames as integer cells (NaN = -1). Named deviations ConstLimit, NoValidObservation, ArrayIgnoresEdge. Interpolation methods, axis=1, nona(value=...) excluded.'),
+    'C13': ('4 C13', 'TLC model checking of Slice (bracket pairs, unbounded sides, time-of-day bounds with the wrap rule), Stitch and Unstitch (MC_Slice, 15 invariants incl. partition and round trip) + every TLC-printed case replayed on Series and 2-column frames in three call spellings, with df_unslice and re-stitch (S2C) + random daily/intraday slices and 1-6-series stitches validated by the TLA+ trace specification Trace_Slice (C2S)',
+            'Time is an integer grid (bounds twice as fine as index points); which rows survive, which series supplies which column of which timestamp, and that stitching the recovered series reproduces the frame are decided by TLC for every replayed and recorded call.',
+            'Trusted: TLC, mapping of the integer grid to datetimes / datetime.time. Unsorted or duplicated indexes, symbol stitching, lb-list forms excluded.'),
+    'C17': ('4 C17', 'TLC model checking of the bitemporal store state machine (ghost publication history pubs, store as bi_merge keeps it, actions Merge/MergeAgain/Read; invariants Refines, RefinesFirst, NoLeak and action properties NoLookAhead, AgainNoop) (MC_Bitemporal) + every TLC behaviour replayed on real Bi/bi_merge/bi_read with all read times compared (S2C) + random publication histories (20-60 dates, shared stamps, > 16 rows per stamp, re-merges) validated by Trace_Bitemporal, one TLC behaviour per recorded history stepping the same actions (C2S)',
+            'The law AsOf is written over the ghost history alone; the mechanism (concat, stable sort, drop repeats) is proved to refine it within small bounds; no information stamped after T reaches an as-of-T read (action property); every real read is judged by the law.',
+            'Trusted: TLC, mapping of small integers to datetimes and cells. Named deviation FirstPerStamp for what=0 under tied first stamps. Multi-column frames, bi_asof, existing_data excluded.'),
 }
 PENDING_REASON = 'check not built yet in this round (planned, see DESIGN.md section 4); not claimed until its specification and conformance harness exist'
 
